@@ -4,6 +4,7 @@
 -/
 import GormModel.Model.Migrate
 import GormModel.Lemmas.Migrate
+import GormModel.Lemmas.MigrateReorder
 namespace Gorm.Mig
 
 /-- CORE LEMMA.  For EVERY field declaration, MigrateColumn on the column report of a faithful dialect issues nothing:
@@ -242,6 +243,212 @@ theorem C20_respelled_default_partial (f : FieldDecl) (ci : ColumnInfo) (h : Agr
   cases f.ignoreMigration with
   | true => rfl
   | false => simp [migrateAlter_agrees h, migrateUnique_agrees hu]
+
+/-! ### ReorderModels: every model once, every requested model present, dependencies first (cycles as the code breaks them) -/
+
+/-- ReorderModels never lists a model twice (any graph, any request list with duplicates, both autoAdd values) -/
+theorem C20_reorder_nodup (g : List ModelDeps) (values : List Str) (autoAdd : Bool) :
+    (reorderModels g values autoAdd).Nodup := reorder_nodup g values autoAdd
+
+/-- with autoAdd (AutoMigrate's call) every requested model is in the result -/
+theorem C20_reorder_complete (g : List ModelDeps) (values : List Str) :
+    ∀ v ∈ values, v ∈ tablesOf g → v ∈ reorderModels g values true := reorder_complete g values
+
+/-- ORDERING: every model a listed model's constraints reference is listed too (auto-added) and comes BEFORE it, unless the
+    dependency runs along a cycle (`Reach g d n`: d transitively depends on n), where the code cuts at the model visited
+    first -/
+theorem C20_reorder_dependencies_first (g : List ModelDeps) (values : List Str) :
+    ∀ n ∈ reorderModels g values true, ∀ d ∈ depsOf g n,
+      d ∈ reorderModels g values true ∧
+      (List.idxOf d (reorderModels g values true) < List.idxOf n (reorderModels g values true) ∨ Reach g d n) :=
+  reorder_deps_first g values
+
+/-! ### Relationship.ParseConstraint: the belongs-to fold -/
+
+/-- `r` is a relation of the referenced schema that points back to `rel`'s schema with exactly the same references
+    (same primary key fields, same FOREIGN KEY fields, same polymorphic values) -/
+def Mirror (rel r : Rel) : Prop :=
+  r.key ≠ rel.key ∧ r.fieldSchema = rel.schema ∧ r.refs.map Ref.core = rel.refs.map Ref.core
+
+theorem refsMatch_iff : ∀ (a b : List Ref), a.length = b.length → (refsMatch a b = true ↔ a.map Ref.core = b.map Ref.core)
+  | [], [], _ => by simp [refsMatch]
+  | [], _ :: _, h => by simp at h
+  | _ :: _, [], h => by simp at h
+  | x :: xs, y :: ys, h => by
+    have ih := refsMatch_iff xs ys (by simpa using h)
+    simp [refsMatch, ih]
+
+theorem folded_iff (rel : Rel) (rels : List Rel) :
+    folded rel rels = true ↔ rel.typ = .belongsTo ∧ ∃ r ∈ rels, Mirror rel r := by
+  unfold folded Mirror
+  simp only [Bool.and_eq_true, beq_iff_eq, List.any_eq_true, bne_iff_ne, ne_eq]
+  constructor
+  · rintro ⟨ht, r, hr, ⟨⟨hk, hs⟩, hl⟩, hm⟩
+    exact ⟨ht, r, hr, hk, hs, ((refsMatch_iff _ _ hl).mp hm).symm⟩
+  · rintro ⟨ht, r, hr, hk, hs, hm⟩
+    have hl : rel.refs.length = r.refs.length := by
+      have := congrArg List.length hm
+      simpa using this.symm
+    exact ⟨ht, r, hr, ⟨⟨hk, hs⟩, hl⟩, (refsMatch_iff _ _ hl).mpr hm.symm⟩
+
+/-- the foreign-key field a reference contributes to the constraint (line 698: it has a primary key; for a join-table
+    relation only the own side) -/
+def ownedFk (rel : Rel) (ref : Ref) : Option FieldId :=
+  if ref.primaryKey.isSome && (!rel.hasJoinTable || ref.ownPrimaryKey) then some ref.foreignKey else none
+
+/-- the foreign-key fields the constraint of `rel` carries -/
+def ownedFks (rel : Rel) : List FieldId := rel.refs.filterMap (ownedFk rel)
+
+theorem constraintStep_fks (rel : Rel) (c : Constraint) (ref : Ref) :
+    (constraintStep rel c ref).fks = c.fks ++ (ownedFk rel ref).toList ∧ (constraintStep rel c ref).name = c.name := by
+  unfold constraintStep ownedFk
+  cases hpk : ref.primaryKey with
+  | none => simp
+  | some pk =>
+    cases hj : rel.hasJoinTable <;> cases ho : ref.ownPrimaryKey <;> simp
+
+theorem buildConstraint_fold (rel : Rel) (refs : List Ref) (c0 : Constraint) :
+    (refs.foldl (constraintStep rel) c0).fks = c0.fks ++ refs.filterMap (ownedFk rel) ∧
+    (refs.foldl (constraintStep rel) c0).name = c0.name := by
+  induction refs generalizing c0 with
+  | nil => simp
+  | cons ref rest ih =>
+    have h1 := constraintStep_fks rel c0 ref
+    have h2 := ih (constraintStep rel c0 ref)
+    simp only [List.foldl_cons, List.filterMap_cons]
+    rw [h2.1, h2.2, h1.1, h1.2]
+    cases ownedFk rel ref <;> simp
+
+theorem buildConstraint_fks (rel : Rel) :
+    (buildConstraint rel).fks = ownedFks rel ∧ (buildConstraint rel).name = constraintName rel := by
+  have h := buildConstraint_fold rel rel.refs
+    { name := constraintName rel, schema := [], refSchema := [], fks := [], refs := [],
+      onDelete := tagSetting rel.tag "ONDELETE".toList, onUpdate := tagSetting rel.tag "ONUPDATE".toList }
+  simp only [List.nil_append] at h
+  exact h
+
+/-- ParseConstraint yields NO constraint exactly when the relation is switched off (`constraint:-`) or it is a belongs-to
+    whose referenced schema holds a mirror relation with the SAME foreign keys: a declared foreign key is dropped only
+    when another relation declares the very same one -/
+theorem C20_constraint_dropped_iff_mirrored (rel : Rel) (rels : List Rel) :
+    parseConstraint rel rels = none ↔ rel.tag = ['-'] ∨ (rel.typ = .belongsTo ∧ ∃ r ∈ rels, Mirror rel r) := by
+  unfold parseConstraint
+  by_cases ht : rel.tag = ['-']
+  · simp [ht]
+  · by_cases hf : folded rel rels = true
+    · simp [ht, hf, (folded_iff rel rels).mp hf]
+    · have : ¬ (rel.typ = .belongsTo ∧ ∃ r ∈ rels, Mirror rel r) := fun h => hf ((folded_iff rel rels).mpr h)
+      simp [ht, hf, this]
+
+/-- … and otherwise it yields the constraint over the relation's own foreign-key fields, under the declared name -/
+theorem C20_constraint_emitted (rel : Rel) (rels : List Rel) (ht : rel.tag ≠ ['-'])
+    (hm : ¬ (rel.typ = .belongsTo ∧ ∃ r ∈ rels, Mirror rel r)) :
+    ∃ c, parseConstraint rel rels = some c ∧ c.fks = ownedFks rel ∧ c.name = constraintName rel := by
+  have hf : folded rel rels = false := by
+    cases h : folded rel rels with
+    | false => rfl
+    | true => exact absurd ((folded_iff rel rels).mp h) hm
+  exact ⟨buildConstraint rel, by simp [parseConstraint, ht, hf], (buildConstraint_fks rel).1, (buildConstraint_fks rel).2⟩
+
+/-- TWO RELATIONS WITH DIFFERENT FOREIGN KEYS YIELD TWO CONSTRAINTS: for two enabled relations `a`, `b` whose foreign-key
+    fields differ (two belongs-to to one parent, …), whatever relations the referenced schema holds:
+    each is either emitted with its own foreign keys or mirrored by a relation with exactly its references; no single
+    relation mirrors both; and two emitted constraints differ in their foreign keys. -/
+theorem C20_two_foreign_keys_two_constraints (a b : Rel) (rels : List Rel) (ha : a.tag ≠ ['-']) (hb : b.tag ≠ ['-'])
+    (hne : a.refs.map (·.foreignKey) ≠ b.refs.map (·.foreignKey)) :
+    (∀ x, x = a ∨ x = b → (∃ c, parseConstraint x rels = some c ∧ c.fks = ownedFks x) ∨ (∃ r ∈ rels, Mirror x r)) ∧
+    (∀ r, ¬ (Mirror a r ∧ Mirror b r)) ∧
+    (∀ ca cb, parseConstraint a rels = some ca → parseConstraint b rels = some cb → ownedFks a ≠ ownedFks b → ca.fks ≠ cb.fks) := by
+  refine ⟨?_, ?_, ?_⟩
+  · intro x hx
+    have hxt : x.tag ≠ ['-'] := by rcases hx with rfl | rfl <;> assumption
+    by_cases hm : x.typ = .belongsTo ∧ ∃ r ∈ rels, Mirror x r
+    · exact Or.inr hm.2
+    · obtain ⟨c, hc, hf, _⟩ := C20_constraint_emitted x rels hxt hm
+      exact Or.inl ⟨c, hc, hf⟩
+  · rintro r ⟨⟨_, _, h1⟩, ⟨_, _, h2⟩⟩
+    apply hne
+    have h := h1.symm.trans h2
+    have := congrArg (List.map (fun (t : Option FieldId × FieldId × Str) => t.2.1)) h
+    simpa [List.map_map, Function.comp_def, Ref.core] using this
+  · intro ca cb hca hcb hd
+    have fa : ca.fks = ownedFks a := by
+      unfold parseConstraint at hca
+      split at hca
+      · cases hca
+      · split at hca
+        · cases hca
+        · cases hca; exact (buildConstraint_fks a).1
+    have fb : cb.fks = ownedFks b := by
+      unfold parseConstraint at hcb
+      split at hcb
+      · cases hcb
+      · split at hcb
+        · cases hcb
+        · cases hcb; exact (buildConstraint_fks b).1
+    rw [fa, fb]
+    exact hd
+
+/-- non-vacuity, and the shape a maintainer knows: Post.Author / Post.Editor -> Writer, Writer.Posts over AuthorID.
+    Author is folded into the has-many, Editor keeps its own constraint. -/
+def fPostAuthorID : FieldId := { id := "posts.author_id".toList, schema := "posts".toList }
+def fPostEditorID : FieldId := { id := "posts.editor_id".toList, schema := "posts".toList }
+def fWriterID : FieldId := { id := "writers.id".toList, schema := "writers".toList }
+def relAuthor : Rel :=
+  { key := "Post.Author".toList, typ := .belongsTo, schema := "posts".toList, fieldSchema := "writers".toList,
+    refs := [{ primaryKey := some fWriterID, primaryValue := [], foreignKey := fPostAuthorID, ownPrimaryKey := false }],
+    hasJoinTable := false, tag := [], defaultName := "fk_posts_author".toList }
+def relEditor : Rel :=
+  { key := "Post.Editor".toList, typ := .belongsTo, schema := "posts".toList, fieldSchema := "writers".toList,
+    refs := [{ primaryKey := some fWriterID, primaryValue := [], foreignKey := fPostEditorID, ownPrimaryKey := false }],
+    hasJoinTable := false, tag := [], defaultName := "fk_posts_editor".toList }
+def relPosts : Rel :=
+  { key := "Writer.Posts".toList, typ := .hasMany, schema := "writers".toList, fieldSchema := "posts".toList,
+    refs := [{ primaryKey := some fWriterID, primaryValue := [], foreignKey := fPostAuthorID, ownPrimaryKey := true }],
+    hasJoinTable := false, tag := [], defaultName := "fk_writers_posts".toList }
+
+theorem C20_seed_shape_example :
+    parseConstraint relAuthor [relPosts] = none ∧
+    (parseConstraint relEditor [relPosts]).map (fun c => (c.name, c.schema, c.refSchema, c.fks)) =
+      some ("fk_posts_editor".toList, "posts".toList, "writers".toList, [fPostEditorID]) ∧
+    (parseConstraint relPosts [relAuthor, relEditor, relPosts]).map (fun c => (c.name, c.schema, c.refSchema, c.fks)) =
+      some ("fk_writers_posts".toList, "posts".toList, "writers".toList, [fPostAuthorID]) := by
+  decide
+
+/-! ### AddColumn: the added column carries the full declaration -/
+
+theorem migrateUnique_added (f : FieldDecl) (ci : ColumnInfo) (ok : Bool) :
+    migrateUnique f { ci with unique := (false, ok) } =
+      if ok && !f.primaryKey && f.unique then [.createUnique] else [] := by
+  simp only [migrateUnique]
+  cases ok <;> cases hp : f.primaryKey <;> cases hu : f.unique <;> simp
+
+/-- a column added by `ALTER TABLE ADD <FullDataTypeOf>` on a faithful dialect already agrees with its declaration: the
+    next run does not alter it; the only thing that can still follow is the late UNIQUE constraint of a `unique` field -/
+theorem C20_added_column_settles (reflect : FieldDecl → ColumnInfo) (h : Faithful reflect) (f : FieldDecl) :
+    migrateAlter f (addedInfo reflect f) = false ∧
+    migrateColumn f (addedInfo reflect f) =
+      (if !f.ignoreMigration && (reflect f).unique.2 && !f.primaryKey && f.unique then [.createUnique] else []) := by
+  have halt : migrateAlter f (addedInfo reflect f) = false :=
+    (migrateAlter_unique_irrel f (reflect f) f.unique (false, (reflect f).unique.2)).trans (migrateAlter_agrees (h.agrees f))
+  refine ⟨halt, ?_⟩
+  have hu : migrateUnique f (addedInfo reflect f) =
+      if (reflect f).unique.2 && !f.primaryKey && f.unique then [.createUnique] else [] :=
+    migrateUnique_added f (reflect f) (reflect f).unique.2
+  unfold migrateColumn
+  rw [halt, hu]
+  cases f.ignoreMigration <;> simp
+
+/-- the statement AddColumn sends carries the whole `FullDataTypeOf` text: NOT NULL and DEFAULT of the declaration
+    are part of it -/
+theorem C20_add_column_sql_full (t : Str) (f : FieldDecl) :
+    fullDataTypeOf f <:+ addColumnSQL t f ∧
+    (f.notNull = true → ∃ rest, fullDataTypeOf f = f.dataTypeSql ++ " NOT NULL".toList ++ rest) := by
+  refine ⟨⟨_, rfl⟩, ?_⟩
+  intro hn
+  unfold fullDataTypeOf
+  rw [if_pos hn]
+  exact ⟨_, rfl⟩
 
 /-! ### ParseIndexes -/
 
